@@ -44,6 +44,7 @@ func (c09) Cases(tier string, seed int64, kf *KnownFindings) []Case {
 		add(Case{Kind: "binlens", Vec: c09bigBin})
 		add(Case{Kind: "foreign", Count: len(c09foreign())})
 		add(Case{Kind: "wide", N: 2048})
+		add(Case{Kind: "skew", Seed: Mix(seed, 77), Count: 120})
 		for i := 0; i < 8; i++ {
 			add(Case{Kind: "positions", Seed: Mix(seed, i), Count: 150})
 		}
@@ -68,6 +69,7 @@ func (c09) Cases(tier string, seed int64, kf *KnownFindings) []Case {
 		add(Case{Kind: "binlens", Vec: c09bigBin})
 		add(Case{Kind: "foreign", Count: len(c09foreign())})
 		add(Case{Kind: "wide", N: 2048})
+		add(Case{Kind: "skew", Seed: Mix(seed, 77), Count: 1500})
 		for i := 0; i < 64; i++ {
 			add(Case{Kind: "positions", Seed: Mix(seed, i), Count: 1500})
 		}
@@ -127,6 +129,23 @@ func c09foreign() []c09foreignMsg {
 	}
 	return out
 }
+
+// c09Wide is what the sender has, c09Narrow what the receiver knows under the same class name
+type c09Wide struct {
+	Name  string
+	Note  string
+	Notes []string
+	Tail  string
+	Data  []byte
+}
+
+type c09Narrow struct {
+	Name string
+	Tail string
+	Data []byte
+}
+
+const c09skewNote = "ééé\x02hi — 名前 \U0001F600 done"
 
 func strOfClass(r *rand.Rand, class string, n int) string {
 	var sb strings.Builder
@@ -270,7 +289,34 @@ func c09check(env *Env, res *Result, c Case, sub int, pos string, isBin bool, s 
 			}
 		}
 	}
-	o := roundTrip(val)
+	var o rtOut
+	if pos == "skew" {
+		w := &c09Wide{Name: "n", Note: s, Notes: []string{"a", s, "ж"}, Tail: s, Data: []byte{1, 2}}
+		if isBin {
+			w.Note, w.Notes, w.Tail, w.Data = c09skewNote, []string{c09skewNote}, "tail", []byte(s)
+		}
+		get = func(d interface{}) (string, bool) {
+			x, ok := d.(*c09Narrow)
+			if !ok || x.Name != "n" {
+				return "", false
+			}
+			if isBin {
+				return string(x.Data), x.Tail == "tail"
+			}
+			return x.Tail, bytes.Equal(x.Data, []byte{1, 2})
+		}
+		o.Stage = "encode"
+		o.Panic, _ = Guard(func() {
+			o.Wire, o.EncErr = hessian.ToBytes(w, map[string]string{"c09Wide": "c09.Rec"})
+			if o.EncErr != nil {
+				return
+			}
+			o.Stage = "decode"
+			o.Dec, o.DecErr = hessian.ToObject(o.Wire, map[string]reflect.Type{"c09.Rec": reflect.TypeOf(c09Narrow{})})
+		})
+	} else {
+		o = roundTrip(val)
+	}
 	switch {
 	case o.Panic != nil:
 		viol(o.Panic.Class, o.Stage+" panic "+o.Panic.Msg)
@@ -334,7 +380,7 @@ func c09check(env *Env, res *Result, c Case, sub int, pos string, isBin bool, s 
 		}
 	}
 	judge("", o.Dec)
-	if pos == "top" {
+	if pos == "top" || pos == "skew" {
 		return
 	}
 	// the same container through the other documented way of calling: no name map on the encoding side,
@@ -488,6 +534,31 @@ func (c09) Run(c Case, env *Env) Result {
 			}
 		}
 		res.Sample(map[string]interface{}{"kind": "wide code point around chunk boundaries", "chunk": c.N, "cases": j})
+	case "skew":
+		// version skew: the sender's class has a text field (and a list of texts) the receiver's struct lacks;
+		// the strings and byte arrays BEHIND the dropped ones must still be exact
+		lens := []int{0, 1, 2, 5, 31, 32, 33, 100, 1023, 1024, 1025, 2048, 2049}
+		for j := 0; j < c.Count; j++ {
+			isBin := r.Intn(3) == 0
+			l := lens[r.Intn(len(lens))]
+			if r.Intn(3) == 0 {
+				l = r.Intn(60)
+			}
+			cl := strClasses[r.Intn(len(strClasses))]
+			var s string
+			if isBin {
+				b := make([]byte, l)
+				r.Read(b)
+				s = string(b)
+			} else {
+				s = strOfClass(r, cl, l)
+			}
+			if c.Sub >= 0 && j != c.Sub {
+				continue
+			}
+			c09check(env, &res, c, j, "skew", isBin, s)
+		}
+		res.Sample(map[string]interface{}{"kind": "strings/binaries behind dropped text fields", "seed": c.Seed, "count": c.Count})
 	case "positions":
 		positions := []string{"field", "elem", "mapkey", "mapval", "top"}
 		lens := []int{0, 0, 1, 2, 5, 31, 32, 33, 100, 1023, 1024, 2048, 2049}
